@@ -127,6 +127,10 @@ func (f *FileBackend) writeLoop() {
 
 	var buf bytes.Buffer
 
+	// flush fires one second after the first event of a batch was buffered; a
+	// timer that is re-armed by every event never fires under steady traffic
+	var flush <-chan time.Time
+
 	for {
 		select {
 		case req, ok := <-f.request:
@@ -139,11 +143,17 @@ func (f *FileBackend) writeLoop() {
 				continue
 			}
 
+			if flush == nil {
+				flush = time.After(time.Second)
+			}
+
 			if buf.Len() < (500 * 1024) {
 				continue
 			}
-		case <-time.After(time.Second):
+		case <-flush:
 		}
+
+		flush = nil
 
 		if _, err := io.Copy(dest, &buf); err != nil {
 			log.Errorf("Failed to copy data to File : %+q", err)
